@@ -281,6 +281,12 @@ def oracle_hostile(f, ctxv):
         ctxv(f'exception reached the event loop: {res["loop_exceptions"][0]}')
     if res['task_exceptions']:
         ctxv(f'task died with {res["task_exceptions"][0]}')
+    # the harness plays the transport: an exception out of data_received / connection_lost is an exception in the loop's own callback
+    for ev, obs in res['log']:
+        if (ev == 'eof' or (isinstance(ev, list) and ev[:1] == ['data'])) and any(isinstance(o, list) and o[0] == 'raised' for o in obs):
+            o = [o for o in obs if isinstance(o, list) and o[0] == 'raised'][0]
+            ctxv(f'exception reached the event loop: the protocol callback for {"a received segment" if ev != "eof" else "the disconnect"} raised {o[1]}')
+            break
     # what reached the consumer: either the session stopped at the malformed frame, or it skipped it and went on
     before, _ = f.wire_msgs()
     full = []
@@ -346,6 +352,11 @@ def oracle_login(f, ctxv):
     first_frame = next((t for it in f.script if it[0] == 'data' for t in it[1] if t != 'hb'), None)
     if r == 'ok' and (first_frame in ('logout', 'bad') or (first_reply is not None and first_reply != 0)):
         ctxv(f'login succeeded although the first reply was not an acceptance (first frame: {first_frame})')
+    if (r == 'refused' and first_frame is not None and not isinstance(first_frame, str) and first_reply == 0
+            and not any(it[0] in ('eof', 'cancel', 'close', 'iclose', 'logout') for it in f.script)):
+        # "an acceptance yields the first outcome for all segmentations/timings of the reply": every byte of the acceptance arrived
+        # (the script lists a frame with the segment that completes it), nobody disconnected, cancelled or closed
+        ctxv('the peer accepted the login — every byte of the acceptance arrived, nobody disconnected, cancelled or closed — but the attempt was refused')
     if r == 'ok' and res.get('login_active') is False:
         # "returns an active, logged-in session": active at the moment of return — `is_active()`, i.e. neither closed nor with the
         # closing task already scheduled (a disconnect reported while the reply travelled from the reader to login())
